@@ -3,8 +3,8 @@ from verif import Case
 from gen_util import *
 import pyref
 
-MODULES = ["WowSrp.Props.C13", "WowSrp.Props.Source.Structural.C13", "WowSrp.Props.Source.C13Ctors", "WowSrp.Props.Source.Shape.SrpInternal", "WowSrp.Props.Source.StrNew"]
-THEOREMS = ["C13_constants", "C13_upperSpec_spec", "C13_accept_iff", "C13_value", "C13_errors_length", "C13_errors_first", "C13_errors", "C13_no_panic", "C13_idempotent", "C13_case_insensitive", "C13_case_insensitive_accept", "C13_same_value_iff", "C13_ord", "C13_source_structural_impls", "C13_source_constructors_delegate", "C13_source_shape_srpinternal", "C13_translated_new"]
+MODULES = ["WowSrp.Props.C13", "WowSrp.Props.Source.Structural.C13", "WowSrp.Props.Source.C13Ctors", "WowSrp.Props.Source.StrNew", "WowSrp.Props.Source.Shape.C13"]
+THEOREMS = ["C13_constants", "C13_upperSpec_spec", "C13_accept_iff", "C13_value", "C13_errors_length", "C13_errors_first", "C13_errors", "C13_no_panic", "C13_idempotent", "C13_case_insensitive", "C13_case_insensitive_accept", "C13_same_value_iff", "C13_ord", "C13_source_structural_impls", "C13_source_constructors_delegate", "C13_translated_new", "C13_source_shapes"]
 RULE = ("type-directed strings: lengths 0..20 bytes, mixes of 1-/2-/3-/4-byte scalars around the 16-byte limit, every ASCII "
         "code at several positions, case variants, ordering/equality/hash pairs; thorough: every Unicode scalar value at every "
         "position 0..15 (digest-summarised sweeps on both sides, counts recomputed by the oracle). distinct = distinct strings; "
